@@ -17,7 +17,7 @@ def add(pid, level, text, note, technique, design_ref, thorough=True):
     }
 
 add("C09", "exploration",
-    "Generated vectors in Fr^n (n=1..8) and byte strings (Keccak block-edge and long lengths) are hashed through the typed, byte-level and FFI entry points and compared with an independent BigUint Poseidon (frozen circomlib constants) and an own Keccak sponge; plus concurrent-purity run. Sampling, not proof: a defect confined to a single input value outside the boundary classes can be missed.",
+    "Generated vectors in Fr^n (n=1..8) and byte strings (Keccak block-edge and long lengths) are hashed through the typed, byte-level and FFI entry points and compared with an independent BigUint Poseidon (frozen circomlib constants) and an own Keccak sponge; plus concurrent-purity run. Sampling, not proof: a defect confined to a single input value outside the boundary classes can be missed. Related inputs (equal length, one byte / element changed) are hashed back to back on one thread in the order s, s', s, s'.",
     "Trusted: frozen published Poseidon constants + circomlibjs known answers; RustCrypto keccak::f1600 + known answers; arkworks byte<->field conversions.",
     "property-based differential testing against independent reference implementations (proptest)", "DESIGN.md#c09")
 add("C14", "exploration",
@@ -30,10 +30,10 @@ add("C06", "exploration",
     "Model-based stateful testing: generated histories over {set, delete, append, set_range, reset} with boundary positions (mark, mark±1, cap-1, cap, cap+1, usize::MAX) at depth 1..6 (every leaf, every subtree root, root and leaves_set observed after every step) and 10/20 (probes), on FullMerkleTree, OptimalMerkleTree, PmTree and the RLN byte API, each against its own ideal array-of-leaves model; rejected operations must change nothing. Sampling of histories, not exhaustive.",
     TREE_NOTE, "stateful model-based property testing (proptest histories + ideal-tree oracle)", "DESIGN.md#c06")
 add("C07", "exploration",
-    "For generated reachable states (histories incl. deletes, range writes, batches) and all/sampled positions: proof shape, LSB-first bits and siblings equal the ideal tree's, root recomputation and verify accept the stored leaf and not a different one, and every single sibling alteration / direction-bit flip (where the children differ) is not accepted, per backend; RLN::get_proof bytes decoded with an independent codec.",
+    "For generated reachable states (histories incl. deletes, range writes, batches) and all/sampled positions: proof shape, LSB-first bits and siblings equal the ideal tree's, root recomputation and verify accept the stored leaf and not a different one, and every single sibling alteration / direction-bit flip (where the children differ) is not accepted, per backend; RLN::get_proof bytes decoded with an independent codec. Up to four watched positions are re-queried after every step of the history; every third persistent-backend case is repeated on a non-temporary tree with close + reopen steps.",
     TREE_NOTE + " Collision resistance of the pair hash assumed for the negative half. PmTree proofs are assembled through the cfg(zerokit_verif) hook PmTreeProof::verif_from_parts.", "stateful model-based property testing + mutation of proofs (metamorphic)", "DESIGN.md#c07")
 add("C08", "exploration",
-    "Generated reachable state + 1..3 batch requests from forced shape classes (write-only, remove-only, removals before/inside/after/interleaved, unsorted, duplicates, empty, start at mark/cap/usize::MAX, removal>=cap, batch initialisation incl. over-capacity) through trait override_range on three backends and RLN::atomic_operation/set_leaves_from/init_tree_with_leaves; outcome must be (Ok and every leaf/subtree root/root/leaves_set equal to the model) or (Err and everything unchanged); panics are violations.",
+    "Generated reachable state + 1..3 batch requests from forced shape classes (write-only, remove-only, removals before/inside/after/interleaved, unsorted, duplicates, empty, start at mark/cap/usize::MAX, removal>=cap, batch initialisation incl. over-capacity) through trait override_range on three backends and RLN::atomic_operation/set_leaves_from/init_tree_with_leaves; outcome must be (Ok and every leaf/subtree root/root/leaves_set equal to the model) or (Err and everything unchanged); panics are violations. Every third persistent-backend case is repeated on a tree that is flushed, dropped and reopened before the first batch; range writes include 257..2000 leaves, after which every position and level is observed.",
     TREE_NOTE, "stateful model-based property testing with shape-class generators", "DESIGN.md#c08")
 add("C15", "exploration",
     "Generated histories over every mutating operation plus compute_root and flush+drop+reopen of a non-temporary persistent tree; after every step get_empty_leaves_indices() (trait and RLN bytes) must equal the model's ascending list of never-written or removed positions below the mark, per backend.",
@@ -44,7 +44,7 @@ add("C19", "exploration",
     "Trusted: circom_ops.rs as a faithful transcription of circom's documented semantics (DESIGN Appendix A); arkworks/ruint conversions.",
     "exhaustive grid enumeration + property-based differential testing against a reference operator model", "DESIGN.md#c19")
 add("C20", "exploration",
-    "Random well-formed DAGs (1..400 nodes, all supported node kinds, backward references, leading and scattered Input nodes, declared input layouts with gaps, repeated outputs) with boundary-weighted inputs: graph::evaluate and calc_witness on the serialised graph must equal a node-by-node BigUint interpretation; serialize/deserialize must return an equal graph, signal list and input map; named inputs supplied in generated orders.",
+    "Random well-formed DAGs (1..400 nodes, all supported node kinds, backward references, leading and scattered Input nodes, declared input layouts with gaps, repeated outputs) with boundary-weighted inputs: graph::evaluate and calc_witness on the serialised graph must equal a node-by-node BigUint interpretation; serialize/deserialize must return an equal graph, signal list and input map; named inputs supplied in generated orders. The stored graph is evaluated with a second input vector and with the first one again.",
     "Trusted: the C19 operator oracle; the reference interpreter (a 15-line loop).",
     "grammar-based program generation + differential testing against a reference interpreter + round-trip", "DESIGN.md#c20")
 
@@ -53,48 +53,48 @@ add("C03", "exploration",
     "Trusted: reference Poseidon/Keccak (self-tested); Keccak collision resistance.",
     "property-based testing with an algebraic inverse oracle (share interpolation) + forced degenerate classes", "DESIGN.md#c03")
 add("C04", "exploration",
-    "Generated circuit-accepted witnesses (boundary field values, direction-bit patterns incl. high levels) with a three-way comparison: proof_values_from_witness == BigUint RLN formulas over the reference Poseidon == positions 1..5 of the bundled graph's witness vector.",
+    "Generated circuit-accepted witnesses (boundary field values, direction-bit patterns incl. high levels) with a three-way comparison: proof_values_from_witness == BigUint RLN formulas over the reference Poseidon == positions 1..5 of the bundled graph's witness vector. The published bytes (serialize_proof_values) are compared with the formulas' values in the documented layout, and 40% of the cases are followed back to back on the same thread by related witnesses (another message id / x / external nullifier / secret) and by the first one again.",
     "Trusted: reference Poseidon (frozen circomlib constants + known answers).",
     "property-based differential testing (three-way: native formulas / reference model / circuit witness)", "DESIGN.md#c04")
 add("C10", "exploration",
-    "Generated values of every encodable type; zerokit encoder vs an independent encoder, zerokit decoder on independent encodings, independent decoder on zerokit encodings, JSON / byte->JSON->byte round trips, bigint-JSON decimal strings; every truncation and 1..40-byte extension of three witness encodings (exhaustive) plus one generated truncation/extension per generated witness must not decode.",
+    "Generated values of every encodable type; zerokit encoder vs an independent encoder, zerokit decoder on independent encodings, independent decoder on zerokit encodings, JSON / byte->JSON->byte round trips, bigint-JSON decimal strings; every truncation and 1..40-byte extension of three witness encodings (exhaustive) plus one generated truncation/extension per generated witness must not decode. Proving requests encoded by the independent encoder (any signal length incl. empty) are decoded by proof_inputs_to_rln_witness and compared; size classes up to 3000 elements / 70000 bytes.",
     "Trusted: codec_ref.rs written from the documented layouts (shares no code with rln::utils).",
     "round-trip and differential property testing against an independent codec", "DESIGN.md#c10")
 
 PIPE_NOTE = "Trusted: reference Poseidon/Keccak (self-tested), the ideal tree model, the independent codec; Groth16 soundness (a mutated proof/value or an unsatisfied witness does not verify)."
 add("C01", "exploration",
-    "Generated (secret, index incl. the right half and both ends, limit incl. 1 and 2^16, message id incl. 0 and limit-1, external nullifier, signal incl. empty/long) x generated tree histories around the prover's leaf x four proving entry points (tree state, supplied witness, raw prove with an independently assembled witness, externally computed witness vector from circom's own generator); every message must be accepted by verify, verify_rln_proof and verify_with_roots ([root], [r1,root,r2], empty set) and carry exactly the model's root/x/y/nullifier. Each case costs one Groth16 proof, so the sample is hundreds (quick) to thousands (thorough) of points, weighted to the regions the suite never reaches.",
+    "Generated (secret, index incl. the right half and both ends, limit incl. 1 and 2^16, message id incl. 0 and limit-1, external nullifier, signal incl. empty/long) x generated tree histories around the prover's leaf x four proving entry points (tree state, supplied witness, raw prove with an independently assembled witness, externally computed witness vector from circom's own generator); every message must be accepted by verify, verify_rln_proof and verify_with_roots ([root], [r1,root,r2], empty set) and carry exactly the model's root/x/y/nullifier. Each case costs one Groth16 proof, so the sample is hundreds (quick) to thousands (thorough) of points, weighted to the regions the suite never reaches. Histories also contain reads of the prover's own path and removal-only batches over other members; 4 in 9 cases prove a second related request on the same instance.",
     PIPE_NOTE + " Entry point 4 needs node (refwit.js); without it the check exits 2.", "property-based testing of the prove/verify round trip against an independent value oracle", "DESIGN.md#c01")
 add("C02", "exploration",
-    "Pool of accepted messages x field-level modifications (each public value +-1 / swapped / zero / random / taken from another message, every proof bit, signal and declared-length changes, root sets with/without the root and near-misses) on all three verifiers, plus verifier-tree changes after proving and restoration; an independent acceptability predicate (byte identity of proof+values, Keccak_ref(signal)=x, root condition) must coincide with the verdict in both directions.",
+    "Pool of accepted messages x field-level modifications (each public value +-1 / swapped / zero / random / taken from another message, every proof bit, signal and declared-length changes, root sets with/without the root and near-misses) on all three verifiers, plus verifier-tree changes after proving and restoration; an independent acceptability predicate (byte identity of proof+values, Keccak_ref(signal)=x, root condition) must coincide with the verdict in both directions. Root sets also consist of distinguished values (zero entries, the empty tree's root, p-1, 1) and of hundreds of members; generated sequences of changes to the verifier's own tree after proving are judged after every step (accepted exactly when the ideal tree's root equals the message's root).",
     PIPE_NOTE, "metamorphic / mutation-based property testing with an independent acceptance predicate", "DESIGN.md#c02")
 add("C05", "exploration",
-    "Generated 46-element input assignments (limb-boundary, near-p, near-p/2, boundary-weighted and uniform values; messageId/limit inside and around the circuit's range) evaluated by zerokit's graph evaluator and by circom's own generated witness calculator (frozen rln.wasm + witness_calculator.js under node): all 5844 signals must be equal for every assignment the reference accepts; repeated evaluation and generated orders of the named inputs must not matter.",
+    "Generated 46-element input assignments (limb-boundary, near-p, near-p/2, boundary-weighted and uniform values; messageId/limit inside and around the circuit's range) evaluated by zerokit's graph evaluator and by circom's own generated witness calculator (frozen rln.wasm + witness_calculator.js under node): all 5844 signals must be equal for every assignment the reference accepts; repeated evaluation and generated orders of the named inputs must not matter. 40% of the cases are preceded on the same thread by a valid evaluation of a related assignment and by rejected evaluations carrying the case's values plus one malformed signal.",
     "Trusted: node 20 + the frozen reference generator in /verif/refwit (the generator the property names). Exit 2 if node is unavailable.", "differential property testing against the reference witness generator", "DESIGN.md#c05")
 add("C12", "exploration",
-    "Generated proving requests, valid and invalid by class (mid = limit, mid > limit, mid or limit-mid outside the 16-bit range, limit 0, mid p-1, index >= capacity / usize::MAX, path length 0/1/19/21, non-binary direction values, mismatching vector lengths, truncation at any byte, trailing bytes, declared signal length longer/shorter/huge, random bytes) on generate_rln_proof, generate_rln_proof_with_witness and prove; outcome must be Err, or Ok with a message that verification accepts; panics are violations; valid requests must succeed. The reference generator labels each witness-level request satisfiable/unsatisfiable.",
+    "Generated proving requests, valid and invalid by class (mid = limit, mid > limit, mid or limit-mid outside the 16-bit range, limit 0, mid p-1, index >= capacity / usize::MAX, path length 0/1/19/21, non-binary direction values, mismatching vector lengths, truncation at any byte, trailing bytes, declared signal length longer/shorter/huge, random bytes) on generate_rln_proof, generate_rln_proof_with_witness and prove; outcome must be Err, or Ok with a message that verification accepts; panics are violations; valid requests must succeed. The reference generator labels each witness-level request satisfiable/unsatisfiable. A fixed sweep runs every invalid class (34 representatives) on each of the three entry points before the generated part; after every third invalid request the plain valid request must still succeed and verify on the same instance.",
     PIPE_NOTE, "property-based robustness testing with class-based invalid-input generators and a verify-after-prove oracle", "DESIGN.md#c12")
 add("C13", "exploration",
-    "Byte strings derived from accepted messages for verify, verify_rln_proof, verify_with_roots (both buffers) and recover_id_secret (both buffers): every truncation length of one message (enumerated) and generated truncations of others, inconsistent/huge declared signal lengths, random field content, random strings, single bit flips, trailing bytes, arbitrary root buffers, and every v+k*p alias of every public value; never a panic, true only for the canonical bytes of an accepted message (independent predicate), recovery output empty or one canonical element.",
+    "Byte strings derived from accepted messages for verify, verify_rln_proof, verify_with_roots (both buffers) and recover_id_secret (both buffers): every truncation length of one message (enumerated) and generated truncations of others, inconsistent/huge declared signal lengths, random field content, random strings, single bit flips, trailing bytes, arbitrary root buffers, and every v+k*p alias of every public value; never a panic, true only for the canonical bytes of an accepted message (independent predicate), recovery output empty or one canonical element. Root buffers also consist of all-zero / all-0xff entries with partial tails; for recovery every altered message is also paired, in both orders, with the unaltered message it was derived from.",
     PIPE_NOTE, "mutation-based fuzzing from golden messages with an independent acceptance predicate (proptest; libFuzzer target planned for the thorough tier)", "DESIGN.md#c13")
 
 add("C16", "fault_enumeration",
-    "Generated histories over {set, delete, append, set_range, batch, set_metadata, flush, flush+drop+reopen} x storage configuration (cache size, flush period, mode, compression, path shape) x API surface (PmTree trait / RLN byte API) at depth 3..6, 10 (20 in thorough). No-fault run: every observation equals the ideal model after every step and after each reopen, and the reopened tree keeps behaving like the model. Fault enumeration: the history is re-run with the storage-adapter hook failing storage operation k+1, for every k the history performs (all positions when K <= 48 quick / 400 thorough, stratified otherwise), one-shot and sticky: the call in which the fault fires must return Err, and after flush+reopen all acknowledged leaves/leaf count/metadata are present. Crash points: a child process abort()s inside storage operation k; after reopening, everything acknowledged by the last successful flush is present.",
+    "Generated histories over {set, delete, append, set_range, batch, set_metadata, flush, flush+drop+reopen} x storage configuration (cache size, flush period, mode, compression, path shape) x API surface (PmTree trait / RLN byte API) at depth 3..6, 10 (20 in thorough). No-fault run: every observation equals the ideal model after every step and after each reopen, and the reopened tree keeps behaving like the model. Fault enumeration: the history is re-run with the storage-adapter hook failing storage operation k+1, for every k the history performs (all positions when K <= 48 quick / 400 thorough, stratified otherwise), one-shot and sticky: the call in which the fault fires must return Err, and after flush+reopen all acknowledged leaves/leaf count/metadata are present. Crash points: a child process abort()s inside storage operation k; after reopening, everything acknowledged by the last successful flush is present. At every other one-shot fault position the identical request is retried (appends excepted); an acknowledged retry counts as applied and the reopened tree must then equal the ideal tree completely.",
     "Trusted: the ideal tree model; the hook fires at the adapter boundary (SledDB::put/put_batch/close), so error mapping inside those three functions below the hook and failures inside sled are not exercised; crash = process abort (not power loss). After a failed request only leaves, leaf count and metadata are constrained, not the root.",
     "stateful model-based property testing with storage fault injection at every position and process-abort crash points", "DESIGN.md#c16")
 
 add("C11", "exploration",
-    "Lockstep differential testing of the two API surfaces: one generated call history (whole extern \"C\" surface, valid and malformed buffers, boundary indices, constructors, sequential and indexed batches, proofs at depth 20) is executed on instance A only through rln::ffi (called in-process with real Buffer structs / raw pointers) and on instance B only through rln::public::RLN; per call flag == is_ok, output bytes equal (randomised outputs: same length and public values, cross-verified), failed calls leave out-parameters and state untouched; after every call root, leaf count, probed leaves, metadata and a membership proof read through the FFI equal those read through the Rust API.",
+    "Lockstep differential testing of the two API surfaces: one generated call history (whole extern \"C\" surface, valid and malformed buffers, boundary indices, constructors, sequential and indexed batches, proofs at depth 20) is executed on instance A only through rln::ffi (called in-process with real Buffer structs / raw pointers) and on instance B only through rln::public::RLN; per call flag == is_ok, output bytes equal (randomised outputs: same length and public values, cross-verified), failed calls leave out-parameters and state untouched; after every call root, leaf count, probed leaves, metadata and a membership proof read through the FFI equal those read through the Rust API. Half of the histories start from a context that already carries metadata; set_tree keeps the current height half of the time.",
     "Trusted: nothing beyond the Rust API itself (it is the reference for this property). Inputs on which the Rust API panics are outside the quantifier: the history ends there and the class is counted. A panic inside an extern \"C\" function aborts the process; a SIGABRT handler reports it as a violation with the unshrunk in-flight case.",
     "stateful differential (lockstep) property testing of two API surfaces", "DESIGN.md#c11")
 
 add("C18", "exploration",
-    "Worker-pool sizes: generated sequential workloads (parallel batch recomputation on the persistent tree at depth 10/20, full witnesses, witness-map H vectors, Groth16 proofs with fixed blinding so that proof bytes are comparable, proof values, public-API prove+verify, verdicts on golden and tampered messages) run in child processes under RAYON_NUM_THREADS = 1, 2, 4, 16 with transcripts compared line by line. Sharing: one shared instance, 2/4/16 threads released together with generated read-only call lists and jitter, each result compared with the same call made sequentially; the same in fresh processes where the lazily initialised globals are first touched concurrently. Re-creation: a persistent instance is dropped and re-created up to 50 times in a row under a time bound. Schedules are sampled, not enumerated.",
+    "Worker-pool sizes: generated sequential workloads (parallel batch recomputation on the persistent tree at depth 10/20, full witnesses, witness-map H vectors, Groth16 proofs with fixed blinding so that proof bytes are comparable, proof values, public-API prove+verify, verdicts on golden and tampered messages) run in child processes under RAYON_NUM_THREADS = 1, 2, 4, 16 with transcripts compared line by line. Sharing: one shared instance, 2/4/16 threads released together with generated read-only call lists and jitter, each result compared with the same call made sequentially; the same in fresh processes where the lazily initialised globals are first touched concurrently. Re-creation: a persistent instance is dropped and re-created up to 50 times in a row under a time bound. Schedules are sampled, not enumerated. The sequential reference is computed under a lock on a separate long-lived instance; half of the Shared / Burst cases run on an instance created for the case (first touch happens concurrently); Burst cases repeat one call per thread up to 6000 times.",
     "Interleavings are whatever the OS scheduler and the jitter produce: a race needing one specific interleaving inside rayon or sled can be missed (this technique does not own their schedulers). The bounded-time clause is checked with a watchdog whose expiry is reported as exit 2 (inconclusive), never as a violation.",
     "differential testing across worker-pool sizes (child processes) + concurrent-vs-sequential comparison on a shared instance with generated schedules", "DESIGN.md#c18")
 
 add("C17", "exploration",
-    "One probe program is compiled from /repo's working tree once per build configuration (default/persistent tree, fullmerkletree, no-default/optimal tree, arkzkey, stateless). A generated workload (history of single-leaf writes, appends, deletions at depth 20; probe positions; proving requests) is executed by every build: roots after every step, leaf count, leaves, membership paths, exported witnesses are compared across the stateful builds and with the ideal tree model; message values with the RLN formulas; proving-key / verifying-key / constraint-matrix digests across all builds, and inside the arkzkey build both key files are parsed and compared element by element (exhaustive over the two files); every message of every producer (incl. the stateless prover) is verified by every build (raw, own tree, producer's root, negative controls). A configuration whose zerokit sources do not compile is reported as a violation.",
+    "One probe program is compiled from /repo's working tree once per build configuration (default/persistent tree, fullmerkletree, no-default/optimal tree, arkzkey, stateless). A generated workload (history of single-leaf writes, appends, deletions at depth 20; probe positions; proving requests) is executed by every build: roots after every step, leaf count, leaves, membership paths, exported witnesses are compared across the stateful builds and with the ideal tree model; message values with the RLN formulas; proving-key / verifying-key / constraint-matrix digests across all builds, and inside the arkzkey build both key files are parsed and compared element by element (exhaustive over the two files); every message of every producer (incl. the stateless prover) is verified by every build (raw, own tree, producer's root, negative controls). A configuration whose zerokit sources do not compile is reported as a violation. Histories include deletions at leaf count-1 / leaf count / leaf count+1.",
     "Trusted: the ideal tree model and the RLN formulas (self-tested reference Poseidon/Keccak); cargo feature unification as performed for a downstream crate that selects the features (the probe depends on rln with default-features = false and adds features per configuration, like rln-cli does). Batch shapes are out of scope here (C06/C08).",
     "differential testing across build configurations (N builds of one generated workload, transcripts compared with each other and with a reference model)", "DESIGN.md#c17")
 
